@@ -19,7 +19,7 @@ for n in sorted(os.listdir(os.path.join(HERE, 'seeded'))):
     rows.append('| %s | %s | %s | %s | %s |' % (n, files, title, caught, inst))
 tab = '| seed | file | mutation | caught by | first reporting instance |\n|---|---|---|---|---|\n' + '\n'.join(rows)
 ncaught = sum(1 for r in rows if '**missed**' not in r)
-tab += '\n\n%d of %d seeded mutations are reported by at least one check (each seed: patch + demonstration + meta.json under `seeded/<name>/`; every one was re-verified by us in a scratch worktree: builds, 170/170 tests pass with the patch, the demonstration fails with it and passes without).' % (ncaught, len(rows))
+tab += '\n\n%d of %d seeded mutations are reported by at least one check (each seed: patch + demonstration + meta.json under `seeded/<name>/`; every one was re-verified by us in a scratch worktree: builds, 170/170 tests pass with the patch, the demonstration fails with it and passes without).%s' % (ncaught, len(rows), '' if ncaught == len(rows) else '  Not reported: ' + ', '.join(sorted(os.path.basename(os.path.dirname(f_)) for f_ in __import__('glob').glob(os.path.join(os.path.dirname(os.path.dirname(os.path.abspath(__file__))), 'seeded', '*', 'result.json')) if not json.load(open(f_)).get('caught_by'))) + ' - see the wave notes above for the reason (C07-23: C11 6.7.9p19 / DR 413 is read both ways by gcc and clang; the rule leaves the case unjudged on purpose).')
 p = os.path.join(HERE, 'DESIGN.md')
 s = open(p).read()
 s = re.sub(r'<!-- MATRIX-BEGIN -->.*?<!-- MATRIX-END -->', lambda m: '<!-- MATRIX-BEGIN -->\n' + tab + '\n<!-- MATRIX-END -->', s, flags=re.S)
